@@ -228,7 +228,7 @@ def safe_name(n):
     return 'V_' + ''.join(ch if ch.isalnum() else '_%d_' % ord(ch) for ch in n)
 
 
-def to_sympy(e, cache=None):
+def to_sympy(e, cache=None, rational=False):
     import sympy
     if cache is None:
         cache = {}
@@ -240,7 +240,7 @@ def to_sympy(e, cache=None):
     elif z3.is_const(e):
         r = sympy.Symbol(safe_name(str(e)))
     else:
-        ch = [to_sympy(c, cache) for c in e.children()]
+        ch = [to_sympy(c, cache, rational) for c in e.children()]
         d = e.decl().kind()
         if d == z3.Z3_OP_ADD:
             r = sympy.Add(*ch)
@@ -251,7 +251,7 @@ def to_sympy(e, cache=None):
         elif d == z3.Z3_OP_UMINUS:
             r = -ch[0]
         elif d == z3.Z3_OP_DIV:
-            if not ch[1].is_Rational:
+            if not ch[1].is_Rational and not rational:
                 raise NotImplementedError('division by a non-constant')
             r = ch[0] / ch[1]
         else:
@@ -381,3 +381,20 @@ def block(blocks):
                 r += list(B[i])
             rows.append(r)
     return rows
+
+
+def divisors(e):
+    """all non-constant divisor subterms of e (syntactic): the term denotes the intended rational function wherever none vanishes"""
+    out, seen, stack = {}, set(), [e]
+    while stack:
+        t = stack.pop()
+        k = t.get_id()
+        if k in seen:
+            continue
+        seen.add(k)
+        if z3.is_app(t) and t.decl().kind() == z3.Z3_OP_DIV:
+            b = t.children()[1]
+            if not z3.is_rational_value(b):
+                out[b.get_id()] = b
+        stack.extend(t.children())
+    return list(out.values())
